@@ -1132,6 +1132,55 @@ impl Strategy for Replay {
     }
 }
 
+/// Directed strategy "all in flight": threads 0..n-2 are each run until they have completed
+/// `holds` successful read-modify-writes (for the channel: the dequeue that takes an index) and are
+/// parked there; then the last thread runs to completion; then the holders finish, in ascending or
+/// descending order. One schedule; reaches states with many operations paused mid-way that a
+/// preemption-bounded search never visits.
+pub struct Hold {
+    pub holds: usize,
+    pub descending: bool,
+    /// The thread that runs alone in the middle (the others hold).
+    pub runner: usize,
+}
+
+impl Strategy for Hold {
+    fn choose(&mut self, view: &View) -> usize {
+        let n = view.pending.len();
+        let runner = if self.runner < n { self.runner } else { n.saturating_sub(1) };
+        let holders: Vec<usize> = (0..n).filter(|t| *t != runner).collect();
+        let done_rmw = |t: usize| {
+            view.log
+                .iter()
+                .filter(|e| e.thr == t && e.ok && matches!(e.kind, Kind::Cas | Kind::CasWeak | Kind::Swap | Kind::FetchAdd | Kind::FetchSub))
+                .count()
+        };
+        let step_of = |t: usize| view.choices.iter().position(|c| matches!(c, Choice::Step(x) if *x == t));
+        // phase 1: bring each holder to its holding point
+        for &t in &holders {
+            if view.pending[t].is_some() && done_rmw(t) < self.holds {
+                if let Some(i) = step_of(t) {
+                    return i;
+                }
+            }
+        }
+        // phase 2: the runner alone
+        if n > 0 && view.pending[runner].is_some() {
+            if let Some(i) = step_of(runner) {
+                return i;
+            }
+        }
+        // phase 3: the holders finish
+        let order: Vec<usize> = if self.descending { holders.iter().rev().cloned().collect() } else { holders.clone() };
+        for t in order {
+            if let Some(i) = step_of(t) {
+                return i;
+            }
+        }
+        0
+    }
+}
+
 /// Seeded random scheduler (xorshift), with a bias towards continuing the running thread.
 pub struct Random {
     state: u64,
